@@ -7,6 +7,7 @@ import Uhppote.Proofs.CodecImage
 import Uhppote.Proofs.CodecRoundTrip
 import Uhppote.Proofs.CodecRead
 import Uhppote.Proofs.CodecConfined
+import Uhppote.Gen.Source
 /-! # C18 — the codec is generic over message layouts
 
 Theorems about `Model.marshal` / `Model.unmarshal` for **every** layout that can be declared with
@@ -207,5 +208,14 @@ example : backAll exampleLayout.leaves [.u8 0, .u32 0x12345678, .u16 0xabcd]
 example : Proofs.Codec.hdrShape exampleLayout.leaves = true := by decide
 example : marshal Gen.codecFacts C12.genTables exampleLayout [.u8 0, .u32 0x12345678, .u16 0xabcd]
     = .ok ([0x17, 0x50, 0, 0, 0, 0, 0, 0, 0x78, 0x56, 0x34, 0x12] ++ zeros 50 ++ [0xcd, 0xab]) := by decide
+
+/-- the codec keeps nothing between calls but its two tag patterns and its table of kinds, all initialised when the package is loaded - not by whichever entry point happens to run first: the package-level variables of the four packages (regenerated) are these ten - the
+    codec's patterns and kind table, the two card-format patterns, the bind-port mutex, `NOTIMEOUT` and three error
+    values - every one of them initialised when its package is loaded. A `sync.Once`, a lazily filled map or a cache
+    would have to appear here. -/
+theorem C18_package_state : Gen.Source.packageVars = ["encoding/UTO311-L0x/UT0311-L0x.go:var re", "encoding/UTO311-L0x/UT0311-L0x.go:var tBool,tByte,tUint16,…",
+    "encoding/UTO311-L0x/UT0311-L0x.go:var vre", "types/card-format.go:var w26", "types/card-format.go:var wAny",
+    "uhppote/UT0311.go:var NOTIMEOUT", "uhppote/UT0311.go:var guard", "uhppote/errors.go:var ErrIncorrectController",
+    "uhppote/errors.go:var ErrInvalidCard", "uhppote/errors.go:var ErrInvalidListenerAddress"] := by decide
 
 end Uhppote.Props.C18
